@@ -117,3 +117,29 @@ pub fn denull(v: &mut Value) {
         _ => {}
     }
 }
+
+/// minimal stderr logger for debugging (enabled with VERIF_LOG=error|warn|info|debug|trace)
+struct StderrLogger;
+impl log::Log for StderrLogger {
+    fn enabled(&self, _m: &log::Metadata) -> bool {
+        true
+    }
+    fn log(&self, r: &log::Record) {
+        eprintln!("[{}] {}: {}", r.level(), r.target(), r.args());
+    }
+    fn flush(&self) {}
+}
+static LOGGER: StderrLogger = StderrLogger;
+pub fn init_logger_from_env() {
+    if let Ok(l) = std::env::var("VERIF_LOG") {
+        let lvl = match l.as_str() {
+            "error" => log::LevelFilter::Error,
+            "warn" => log::LevelFilter::Warn,
+            "info" => log::LevelFilter::Info,
+            "debug" => log::LevelFilter::Debug,
+            _ => log::LevelFilter::Trace,
+        };
+        let _ = log::set_logger(&LOGGER);
+        log::set_max_level(lvl);
+    }
+}
